@@ -3,7 +3,7 @@
 //! index into the code points with look-ahead (the Lean model is a one-character state machine).
 //!
 //! `parse` returns `None` when the input leaves the subset: any parse error other than
-//! incorrectly-opened-comment, U+0000, U+000D, unknown named references / references without `;`,
+//! incorrectly-opened-comment and a `<` that cannot start a tag (it is text), U+0000, U+000D, unknown named references / references without `;`,
 //! DOCTYPE / CDATA / `<?`, `<!` inside script data, unsupported elements, start tags that the tree
 //! builder would not simply insert (p-closing tag inside `p`, `a` in `a`, `button` in `button`,
 //! heading directly in heading), end tags that do not close the current node, EOF inside anything.
@@ -136,7 +136,9 @@ impl P {
 
     /// 13.2.5.72 ff.; called with `i` just after the `&`
     fn char_ref(&mut self) -> Option<CharRef> {
-        let c = self.peek()?; // `&` at the very end: outside the subset
+        let Some(c) = self.peek() else {
+            return Some(CharRef::Literal); // `&` at the very end is a `&` (inside a tag the caller hits EOF next)
+        };
         if c.is_ascii_alphanumeric() {
             let start = self.i;
             let mut j = self.i;
@@ -540,7 +542,10 @@ impl P {
                     CharRef::Literal => self.emit_char('&'),
                 }
             } else if c == '<' && data {
-                let n = self.peek()?;
+                let Some(n) = self.peek() else {
+                    self.emit_char('<'); // eof-before-tag-name: the `<` is text
+                    continue;
+                };
                 if n == '!' {
                     self.i += 1;
                     self.markup_declaration()?;
@@ -552,8 +557,11 @@ impl P {
                     self.close_tag()?;
                 } else if n.is_ascii_alphabetic() {
                     self.tag()?;
-                } else {
+                } else if n == '?' {
                     return None;
+                } else {
+                    // invalid-first-character-of-tag-name: the `<` is text, `n` is looked at again
+                    self.emit_char('<');
                 }
             } else if c == '<' {
                 self.raw_lt()?;
